@@ -108,6 +108,22 @@ impl Call {
         }
     }
 }
+impl Call {
+    /// an abstract call as exported by TLC (same record shape as `json`)
+    pub fn from_json(j: &Value) -> Option<Call> {
+        let a = j["a"].as_i64().unwrap_or(0);
+        let c: Vec<u8> = j["c"].as_array().map(|v| v.iter().filter_map(|x| x.as_u64()).map(|x| x as u8).collect()).unwrap_or_default();
+        let st: String = j["s"].as_array().map(|v| v.iter().filter_map(|x| x.as_u64()).filter_map(|x| char::from_u32(x as u32)).collect()).unwrap_or_default();
+        Some(match j["op"].as_str()? {
+            "shape" => Call::Shape(a as usize), "shape_color" => Call::ShapeColor(a as usize, c), "margin" => Call::Margin(a as usize),
+            "module_color" => Call::ModuleColor(c), "background_color" => Call::BackgroundColor(c), "image" => Call::Image(st),
+            "image_background_color" => Call::ImageBackgroundColor(c), "image_background_shape" => Call::ImageBackgroundShape(a as usize),
+            "image_size" => Call::ImageSize(a as f64 / 1000.0), "image_gap" => Call::ImageGap(a as f64 / 1000.0),
+            "image_position" => Call::ImagePosition(a as f64 / 1000.0, j["b"].as_f64().unwrap_or(0.0) / 1000.0),
+            _ => return None,
+        })
+    }
+}
 pub fn program_json(p: &[Call]) -> Value { Value::Array(p.iter().map(|c| c.json()).collect()) }
 pub fn svg_builder(p: &[Call]) -> SvgBuilder { let mut b = SvgBuilder::default(); for c in p { c.apply(&mut b); } b }
 
@@ -425,8 +441,21 @@ pub fn raster(sink: &mut Sink, seed: u64, thorough: bool) {
 // ------------------------------------------------------------------ renderer sessions (C14: a rendering depends on the QR code and the FINAL options only)
 /// One builder object lives through setter calls and renderings interleaved; every rendering is recorded with the calls made
 /// so far (judged against the registers of the model) and compared with a fresh builder given the same calls.
-pub fn sessions(sink: &mut Sink, seed: u64, thorough: bool) {
+pub fn sessions(sink: &mut Sink, seed: u64, thorough: bool, alphabet: &str, behaviours: &str) {
     let mut r = rng(seed, 23);
+    // sessions exported by TLC from spec/RenderSession.tla: setter calls over its alphabet and renderings of code 1 / 2
+    let tlc_alpha: Vec<Call> = std::fs::read_to_string(alphabet).ok().and_then(|s| serde_json::from_str::<Vec<Value>>(&s).ok()).unwrap_or_default().iter().filter_map(Call::from_json).collect();
+    let mut tlc_plans: Vec<Vec<(Vec<Call>, usize)>> = Vec::new();
+    for l in std::fs::read_to_string(behaviours).unwrap_or_default().lines() {
+        let Ok(b) = serde_json::from_str::<Value>(l) else { continue };
+        let mut plan: Vec<(Vec<Call>, usize)> = Vec::new();
+        let mut cur: Vec<Call> = Vec::new();
+        for e in b["hist"].as_array().cloned().unwrap_or_default() {
+            if e["op"] == "set" { if let Some(c) = tlc_alpha.get(e["i"].as_u64().unwrap_or(1) as usize - 1) { cur.push(c.clone()); } }
+            else { plan.push((std::mem::take(&mut cur), e["code"].as_u64().unwrap_or(1) as usize - 1)); }
+        }
+        if !plan.is_empty() { tlc_plans.push(plan); }
+    }
     let alpha: Vec<Call> = vec![
         Call::Shape(1), Call::Shape(4), Call::ShapeColor(0, COLORS[2].to_vec()), Call::Margin(0), Call::Margin(7), Call::Margin(4),
         Call::ModuleColor(COLORS[2].to_vec()), Call::BackgroundColor(COLORS[3].to_vec()), Call::Image("logo.png".into()), Call::Image("other.png".into()),
@@ -444,6 +473,8 @@ pub fn sessions(sink: &mut Sink, seed: u64, thorough: bool) {
         let segs = r.gen_range(2..5);
         plans.push((0..segs).map(|_| ((0..r.gen_range(0..3)).map(|_| alpha[r.gen_range(0..alpha.len())].clone()).collect(), r.gen_range(0..3))).collect());
     }
+    let ngen = tlc_plans.len();
+    let plans: Vec<Vec<(Vec<Call>, usize)>> = tlc_plans.into_iter().chain(plans.into_iter()).collect();
     for (pi, plan) in plans.iter().enumerate() {
         let plan2 = plan.clone();
         let qrs2 = qrs.clone();
@@ -463,7 +494,7 @@ pub fn sessions(sink: &mut Sink, seed: u64, thorough: bool) {
         match res {
             Ok(outs) => for (si, (prog, k, same, svg)) in outs.into_iter().enumerate() {
                 let id = sink.id();
-                sink.emit(&json!({"ev": "Svg", "id": id, "tag": format!("session:{}", si.min(3)), "size": qrs[k].size, "vals": vals_of(&qrs[k]), "program": program_json(&prog), "kind": "Ok",
+                sink.emit(&json!({"ev": "Svg", "id": id, "tag": format!("{}:{}", if pi < ngen { "sessiongen" } else { "session" }, si.min(3)), "size": qrs[k].size, "vals": vals_of(&qrs[k]), "program": program_json(&prog), "kind": "Ok",
                                   "obs": sense_svg(&svg), "qr_unchanged": 1, "fresh_eq": same as u8, "session": pi}));
             },
             Err(kd) => { let id = sink.id(); sink.emit(&json!({"ev": "Svg", "id": id, "tag": "session:0", "size": qrs[0].size, "vals": vals_of(&qrs[0]), "program": [], "kind": kd, "obs": sense_svg("<x"), "qr_unchanged": 1, "fresh_eq": 0, "session": pi})); }
